@@ -380,6 +380,12 @@ def r8_6(ctx: Ctx) -> None:
                and isinstance(n.ast.value, ast.Constant) and n.ast.value.value is False]
     pl = gd.path_avoiding(lowered, lambda e: bool(e.label and e.label[0] == "cond" and unparse(e.label[1]) in macs and e.label[2] is True))
     ok = bool(gw) and p is None and bool(lowered) and pl is None
+    if not flag and gw and macs:
+        # the same decision without a flag variable: `if <resolved mac>: ... else: <gateway look-ups>` - the gateway is consulted
+        # only on the arm where the local resolution produced no MAC address
+        pd = gd.path_avoiding(gw, lambda e: bool(e.label and e.label[0] == "cond" and unparse(e.label[1]) in macs and e.label[2] is False))
+        ok = pd is None
+        p = pd
     ctx.record("R8.6", ctx.key(d, "gateway MAC/interface used exactly when no local resolution succeeded"), d.loc(), ok,
                f"gateway look-ups only on the true edge of the flag `{flag}`; flag values {defs}; lowered only when a local MAC was resolved" if ok else
                "the default gateway is used for directly reachable hosts, or skipped for remote ones", path_text(p or pl))
